@@ -439,4 +439,53 @@ theorem dfDet_dfAtt_list : ∀ (xs : List Item), dfStaleList tab xs = false → 
       simp [dfAttList, dfDetList, dfDet_dfAtt_item x hs.1 h.1, dfDet_dfAtt_list xs hs.2 h.2]
 end
 
+
+section
+variable (T : List String)
+
+theorem unregList_pragmas (ps : List Pragma) : unregList (ps.map .pragma) = ps.map .pragma := by
+  induction ps with
+  | nil => simp [unregList]
+  | cons p ps ih => simp [unregList, unregItem, ih]
+
+mutual
+/-- detaching twice: the second pass only finds what the first one left (flags `b` then `a`, same node types) -/
+theorem detach_detach_item (a b : Bool) : ∀ (i : Item),
+    detachList T a (detachItem T b i) = detachItem T (a || b) i
+  | .pragma p => by simp [detachItem, detachList]
+  | .region df s e body => by simp [detachItem, detachList, detach_detach_list a b body]
+  | .node id k hp df pre po body => by
+      have ih := detach_detach_list a b body
+      by_cases hq : k ∈ T
+      · cases pre <;> cases po <;> cases a <;> cases b <;>
+          simp [detachItem, detachList, detachList_append, detachList_pragmas, hq, ih]
+      · simp [detachItem, detachList, hq, ih]
+theorem detach_detach_list (a b : Bool) : ∀ (xs : List Item),
+    detachList T a (detachList T b xs) = detachList T (a || b) xs
+  | [] => by simp [detachList]
+  | x :: xs => by
+      simp [detachList, detachList_append, detach_detach_item a b x, detach_detach_list a b xs]
+end
+
+mutual
+/-- the pragma detacher and the region detacher commute -/
+theorem detach_unreg_item (post : Bool) : ∀ (i : Item),
+    detachList T post (unregItem i) = unregList (detachItem T post i)
+  | .pragma p => by simp [detachItem, detachList, unregItem, unregList]
+  | .region df s e body => by
+      simp [detachItem, detachList, unregItem, unregList, detachList_append, detach_unreg_list post body]
+  | .node id k hp df pre po body => by
+      simp only [detachItem, detachList, unregItem, unregList, unregList_append, List.append_nil,
+        detach_unreg_list post body]
+      split <;> split <;> simp [unregList_pragmas, unregList, unregItem]
+theorem detach_unreg_list (post : Bool) : ∀ (xs : List Item),
+    detachList T post (unregList xs) = unregList (detachList T post xs)
+  | [] => by simp [detachList, unregList]
+  | x :: xs => by
+      simp [detachList, unregList, detachList_append, unregList_append, detach_unreg_item post x,
+        detach_unreg_list post xs]
+end
+
+end
+
 end LokiModel.C16
